@@ -441,6 +441,26 @@ func (h *Hashgraph) checkOtherParent(event *Event) error {
 	return nil
 }
 
+// Check that the Event extends its creator's chain by exactly one: its index
+// must be the self-parent's index plus one, or zero for a first Event. The
+// ancestry computations compare per-creator indexes and rely on index==height.
+func (h *Hashgraph) checkIndex(event *Event) error {
+	expected := 0
+	if selfParent := event.SelfParent(); selfParent != "" {
+		sp, err := h.Store.GetEvent(selfParent)
+		if err != nil {
+			// the self-parent is known by hash but can no longer be loaded
+			// (evicted from an in-memory store): nothing to compare with
+			return nil
+		}
+		expected = sp.Index() + 1
+	}
+	if event.Index() != expected {
+		return fmt.Errorf("Invalid Event index: got %d, expected %d", event.Index(), expected)
+	}
+	return nil
+}
+
 //initialize arrays of last ancestors and first descendants
 func (h *Hashgraph) initEventCoordinates(event *Event) error {
 	event.lastAncestors = NewCoordinatesMap()
@@ -711,6 +731,15 @@ func (h *Hashgraph) InsertEvent(event *Event, setWireInfo bool) error {
 			"creator":      event.Creator(),
 			"other_parent": event.OtherParent(),
 		}).WithError(err).Errorf("CheckOtherParent")
+		return err
+	}
+
+	if err := h.checkIndex(event); err != nil {
+		h.logger.WithFields(logrus.Fields{
+			"event":   event.Hex(),
+			"creator": event.Creator(),
+			"index":   event.Index(),
+		}).WithError(err).Errorf("CheckIndex")
 		return err
 	}
 
